@@ -10,6 +10,25 @@ open Usual.C04
 
 /-! ## what the bookkeeping (`publish_gm`, `fill_history`) cannot change -/
 
+/-- two frames agree on everything except `end` and the history slot -/
+structure FrameEq (a b : Frame) : Prop where
+  gno : b.gno = a.gno
+  alts : b.alts = a.alts
+  min : b.min = a.min
+  max : b.max = a.max
+  next : b.next = a.next
+  start : b.start = a.start
+  prev : b.prev = a.prev
+  count : b.count = a.count
+  minok : b.minok = a.minok
+  parent : b.parent = a.parent
+
+theorem FrameEq.refl (a : Frame) : FrameEq a a := ⟨rfl, rfl, rfl, rfl, rfl, rfl, rfl, rfl, rfl, rfl⟩
+theorem FrameEq.trans {a b c : Frame} (h1 : FrameEq a b) (h2 : FrameEq b c) : FrameEq a c :=
+  ⟨h2.gno.trans h1.gno, h2.alts.trans h1.alts, h2.min.trans h1.min, h2.max.trans h1.max, h2.next.trans h1.next,
+   h2.start.trans h1.start, h2.prev.trans h1.prev, h2.count.trans h1.count, h2.minok.trans h1.minok,
+   h2.parent.trans h1.parent⟩
+
 /-- `st'` has the same frames as `st` up to fields other than the owner group number, and the same
 search state (`last_endpos`, step budget) -/
 structure Keeps (st st' : St) : Prop where
@@ -17,11 +36,19 @@ structure Keeps (st st' : St) : Prop where
   gno : ∀ k, (st'.fr k).gno = (st.fr k).gno
   last : st'.lastEnd = st.lastEnd
   budget : st'.budget = st.budget
+  stacks : st'.stacks = st.stacks
+  start : ∀ k, (st'.fr k).start = (st.fr k).start
+  parent : ∀ k, (st'.fr k).parent = (st.fr k).parent
+  psize : st'.pm.size = st.pm.size
+  feq : ∀ k, FrameEq (st.fr k) (st'.fr k)
 
-theorem Keeps.refl (st : St) : Keeps st st := ⟨rfl, fun _ => rfl, rfl, rfl⟩
+theorem Keeps.refl (st : St) : Keeps st st :=
+  ⟨rfl, fun _ => rfl, rfl, rfl, rfl, fun _ => rfl, fun _ => rfl, rfl, fun _ => FrameEq.refl _⟩
 
 theorem Keeps.trans {a b c : St} (h1 : Keeps a b) (h2 : Keeps b c) : Keeps a c :=
-  ⟨h2.size.trans h1.size, fun k => (h2.gno k).trans (h1.gno k), h2.last.trans h1.last, h2.budget.trans h1.budget⟩
+  ⟨h2.size.trans h1.size, fun k => (h2.gno k).trans (h1.gno k), h2.last.trans h1.last, h2.budget.trans h1.budget,
+   h2.stacks.trans h1.stacks, fun k => (h2.start k).trans (h1.start k), fun k => (h2.parent k).trans (h1.parent k),
+   h2.psize.trans h1.psize, fun k => (h1.feq k).trans (h2.feq k)⟩
 
 theorem fr_setFr (st : St) (g k : Nat) (f : Frame) :
     (st.setFr g f).fr k = if k = g ∧ g < st.frames.size then f else st.fr k := by
@@ -36,13 +63,31 @@ theorem fr_setFr (st : St) (g k : Nat) (f : Frame) :
       simp [Array.getElem!_eq_getD, Array.getD_eq_getD_getElem?, this]
     · simp [Array.getElem!_eq_getD, Array.getD_eq_getD_getElem?, Array.getElem?_setIfInBounds, Ne.symm hk]
 
-theorem keeps_setFr (st : St) (g : Nat) (f : Frame) (h : f.gno = (st.fr g).gno) : Keeps st (st.setFr g f) := by
-  refine ⟨by simp [St.setFr], ?_, rfl, rfl⟩
-  intro k
-  rw [fr_setFr]
-  by_cases hk : k = g ∧ g < st.frames.size
-  · rw [if_pos hk, h, hk.1]
-  · rw [if_neg hk]
+theorem keeps_setFr (st : St) (g : Nat) (f : Frame) (h : f.gno = (st.fr g).gno)
+    (h2 : f.start = (st.fr g).start := by rfl) (h3 : f.parent = (st.fr g).parent := by rfl)
+    (h4 : FrameEq (st.fr g) f := by exact ⟨rfl, rfl, rfl, rfl, rfl, rfl, rfl, rfl, rfl, rfl⟩) :
+    Keeps st (st.setFr g f) := by
+  refine ⟨by simp [St.setFr], ?_, rfl, rfl, rfl, ?_, ?_, rfl, ?_⟩
+  · intro k
+    rw [fr_setFr]
+    by_cases hk : k = g ∧ g < st.frames.size
+    · rw [if_pos hk, hk.1]; exact h
+    · rw [if_neg hk]
+  · intro k
+    rw [fr_setFr]
+    by_cases hk : k = g ∧ g < st.frames.size
+    · rw [if_pos hk, hk.1]; exact h2
+    · rw [if_neg hk]
+  · intro k
+    rw [fr_setFr]
+    by_cases hk : k = g ∧ g < st.frames.size
+    · rw [if_pos hk, hk.1]; exact h3
+    · rw [if_neg hk]
+  · intro k
+    rw [fr_setFr]
+    by_cases hk : k = g ∧ g < st.frames.size
+    · rw [if_pos hk, hk.1]; exact h4
+    · rw [if_neg hk]; exact FrameEq.refl _
 
 theorem keeps_fillHist (gno : Nat) : ∀ (f : Nat) (gm : Option Nat) (rl : Int) (st : St),
     Keeps st (fillHist gno f gm rl st) := by
@@ -59,7 +104,7 @@ theorem keeps_fillHist (gno : Nat) : ∀ (f : Nat) (gm : Option Nat) (rl : Int) 
       | none =>
         simp only []
         refine Keeps.trans ?_ (ih _ _ _)
-        exact ⟨rfl, fun _ => rfl, rfl, rfl⟩
+        exact ⟨rfl, fun _ => rfl, rfl, rfl, rfl, fun _ => rfl, fun _ => rfl, rfl, fun _ => FrameEq.refl _⟩
       | some p =>
         simp only []
         refine Keeps.trans ?_ (ih _ _ _)
@@ -68,7 +113,7 @@ theorem keeps_fillHist (gno : Nat) : ∀ (f : Nat) (gm : Option Nat) (rl : Int) 
 theorem keeps_publish (st : St) (gno : Nat) : Keeps st (publish st gno) := by
   unfold publish
   simp only []
-  split <;> exact ⟨rfl, fun _ => rfl, rfl, rfl⟩
+  split <;> exact ⟨rfl, fun _ => rfl, rfl, rfl, rfl, fun _ => rfl, fun _ => rfl, by simp, fun _ => FrameEq.refl _⟩
 
 theorem keeps_publishAll (cx : Cx) : ∀ (f gno : Nat) (st : St), Keeps st (publishAll cx f gno st) := by
   intro f
@@ -90,11 +135,20 @@ theorem keeps_publishAll (cx : Cx) : ∀ (f gno : Nat) (st : St), Keeps st (publ
 structure SameG (st st' : St) : Prop where
   size : st'.frames.size = st.frames.size
   gno : ∀ k, (st'.fr k).gno = (st.fr k).gno
+  stacks : st'.stacks = st.stacks
+  start : ∀ k, (st'.fr k).start = (st.fr k).start
+  parent : ∀ k, (st'.fr k).parent = (st.fr k).parent
+  psize : st'.pm.size = st.pm.size
+  feq : ∀ k, FrameEq (st.fr k) (st'.fr k)
 
-theorem SameG.refl (st : St) : SameG st st := ⟨rfl, fun _ => rfl⟩
+theorem SameG.refl (st : St) : SameG st st :=
+  ⟨rfl, fun _ => rfl, rfl, fun _ => rfl, fun _ => rfl, rfl, fun _ => FrameEq.refl _⟩
 theorem SameG.trans {a b c : St} (h1 : SameG a b) (h2 : SameG b c) : SameG a c :=
-  ⟨h2.size.trans h1.size, fun k => (h2.gno k).trans (h1.gno k)⟩
-theorem Keeps.sameG {a b : St} (h : Keeps a b) : SameG a b := ⟨h.size, h.gno⟩
+  ⟨h2.size.trans h1.size, fun k => (h2.gno k).trans (h1.gno k), h2.stacks.trans h1.stacks,
+   fun k => (h2.start k).trans (h1.start k), fun k => (h2.parent k).trans (h1.parent k), h2.psize.trans h1.psize,
+   fun k => (h1.feq k).trans (h2.feq k)⟩
+theorem Keeps.sameG {a b : St} (h : Keeps a b) : SameG a b :=
+  ⟨h.size, h.gno, h.stacks, h.start, h.parent, h.psize, h.feq⟩
 
 def newLast (old : Option Nat) (str : Nat) : Option Nat :=
   match old with
@@ -103,19 +157,18 @@ def newLast (old : Option Nat) (str : Nat) : Option Nat :=
 
 /-- `got_full_match` when at most `pmatch[0]` is wanted: always 0; `last_endpos` becomes the
 larger of its old value and `str`; no step is consumed -/
-theorem gotFull_spec (cx : Cx) (hn : cx.nmatch ≤ 1) (g str : Nat) (st : St) :
+theorem gotFull_spec (cx : Cx) (g str : Nat) (st : St) :
     ∃ st', gotFull cx str g st = (0, st') ∧ SameG st st' ∧ st'.budget = st.budget ∧
       st'.lastEnd = newLast st.lastEnd str := by
   have k1 : Keeps st (st.setFr g { st.fr g with end_ := some str }) := keeps_setFr st g _ rfl
   unfold gotFull
   simp only []
   rw [k1.last]
-  have hnm : ¬ cx.nmatch > 1 := by omega
   cases hl : st.lastEnd with
   | none =>
     simp only []
     have kp := keeps_publishAll cx cx.nmatch 0 { st.setFr g { st.fr g with end_ := some str } with lastEnd := some str }
-    refine ⟨_, rfl, ⟨kp.size.trans k1.size, fun k => (kp.gno k).trans (k1.gno k)⟩, kp.budget.trans k1.budget, ?_⟩
+    refine ⟨_, rfl, (k1.sameG).trans ⟨kp.size, kp.gno, kp.stacks, kp.start, kp.parent, kp.psize, kp.feq⟩, kp.budget.trans k1.budget, ?_⟩
     rw [kp.last]; simp [newLast]
   | some le =>
     simp only []
@@ -127,12 +180,24 @@ theorem gotFull_spec (cx : Cx) (hn : cx.nmatch ≤ 1) (g str : Nat) (st : St) :
       by_cases h2 : str > le
       · rw [if_pos h2]
         have kp := keeps_publishAll cx cx.nmatch 0 { st.setFr g { st.fr g with end_ := some str } with lastEnd := some str }
-        refine ⟨_, rfl, ⟨kp.size.trans k1.size, fun k => (kp.gno k).trans (k1.gno k)⟩, kp.budget.trans k1.budget, ?_⟩
+        refine ⟨_, rfl, (k1.sameG).trans ⟨kp.size, kp.gno, kp.stacks, kp.start, kp.parent, kp.psize, kp.feq⟩, kp.budget.trans k1.budget, ?_⟩
         rw [kp.last]; simp [newLast]; omega
       · rw [if_neg h2]
-        simp only [hnm, decide_false, Bool.and_false, Bool.false_eq_true, if_false]
-        refine ⟨_, rfl, k1.sameG, k1.budget, ?_⟩
-        rw [k1.last, hl]; simp [newLast]; omega
+        have hle : str = le := by omega
+        by_cases hb : (cx.strict && decide (cx.nmatch > 1)) = true
+        · rw [if_pos hb]
+          by_cases ht : tieLoop cx (st.setFr g { st.fr g with end_ := some str }) cx.nmatch 0 = true
+          · rw [if_pos ht]
+            simp only []
+            have kp := keeps_publishAll cx cx.nmatch 0 (st.setFr g { st.fr g with end_ := some str })
+            refine ⟨_, rfl, (k1.sameG).trans kp.sameG, kp.budget.trans k1.budget, ?_⟩
+            rw [kp.last, k1.last, hl]; simp [newLast]; omega
+          · rw [if_neg ht]
+            refine ⟨_, rfl, k1.sameG, k1.budget, ?_⟩
+            rw [k1.last, hl]; simp [newLast]; omega
+        · rw [if_neg hb]
+          refine ⟨_, rfl, k1.sameG, k1.budget, ?_⟩
+          rw [k1.last, hl]; simp [newLast]; omega
 
 /-! ## the search on parenthesis-free op lists -/
 
@@ -161,31 +226,33 @@ def Good (err : Nat) : Prop := err ≠ OUT_OF_BUDGET ∧ err ≠ OUT_OF_FUEL
 
 /-- what a (non-aborted) search over the match set `P` does: `got` = a match was already seen by
 the caller's loop (strict mode only) -/
-structure Post (cx : Cx) (P : Nat → Prop) (got : Bool) (st : St) (err : Nat) (st' : St) : Prop where
+structure Post (cx : Cx) (J : St → Prop) (P : Nat → Prop) (got : Bool) (st : St) (err : Nat) (st' : St) : Prop where
   same : SameG st st'
   code : err = 0 ∨ err = NOMATCH
   ok : err = 0 ↔ (got = true ∨ ∃ j, P j)
   mono : ∀ le, st.lastEnd = some le → ∃ le', st'.lastEnd = some le' ∧ le ≤ le'
   upper : cx.strict = true → ∀ j, P j → ∃ le', st'.lastEnd = some le' ∧ j ≤ le'
   attained : st'.lastEnd = st.lastEnd ∨ ∃ j, P j ∧ st'.lastEnd = some j
+  /-- a caller-chosen state invariant (used for `pmatch[0]`) is carried along -/
+  keepJ : J st → J st'
 
-theorem Post.congr {cx : Cx} {P Q : Nat → Prop} {got st err st'} (h : ∀ j, P j ↔ Q j)
-    (p : Post cx P got st err st') : Post cx Q got st err st' :=
+theorem Post.congr {cx : Cx} {J : St → Prop} {P Q : Nat → Prop} {got st err st'} (h : ∀ j, P j ↔ Q j)
+    (p : Post cx J P got st err st') : Post cx J Q got st err st' :=
   ⟨p.same, p.code, by rw [p.ok]; simp only [h], p.mono, fun hs j hj => p.upper hs j ((h j).mpr hj),
    by rcases p.attained with h1 | ⟨j, hj, h2⟩
       · exact Or.inl h1
-      · exact Or.inr ⟨j, (h j).mp hj, h2⟩⟩
+      · exact Or.inr ⟨j, (h j).mp hj, h2⟩, p.keepJ⟩
 
 /-- nothing matched, nothing changed -/
-theorem Post.none {cx : Cx} {P : Nat → Prop} (st : St) (hP : ∀ j, ¬ P j) : Post cx P false st NOMATCH st :=
+theorem Post.none {cx : Cx} {J : St → Prop} {P : Nat → Prop} (st : St) (hP : ∀ j, ¬ P j) : Post cx J P false st NOMATCH st :=
   ⟨SameG.refl st, Or.inr rfl, by simp [NOMATCH]; exact fun j => hP j, fun le h => ⟨le, h, Nat.le_refl _⟩,
-   fun _ j hj => absurd hj (hP j), Or.inl rfl⟩
+   fun _ j hj => absurd hj (hP j), Or.inl rfl, id⟩
 
 /-- a search over `P1` followed by a search over `P2` from the resulting state -/
-theorem Post.seq {cx : Cx} {P1 P2 : Nat → Prop} {g1 : Bool} {st st1 st2 : St} {e1 e2 : Nat}
-    (p1 : Post cx P1 g1 st e1 st1) (p2 : Post cx P2 (g1 || decide (e1 = 0)) st1 e2 st2) :
-    Post cx (fun j => P1 j ∨ P2 j) g1 st e2 st2 := by
-  refine ⟨p1.same.trans p2.same, p2.code, ?_, ?_, ?_, ?_⟩
+theorem Post.seq {cx : Cx} {J : St → Prop} {P1 P2 : Nat → Prop} {g1 : Bool} {st st1 st2 : St} {e1 e2 : Nat}
+    (p1 : Post cx J P1 g1 st e1 st1) (p2 : Post cx J P2 (g1 || decide (e1 = 0)) st1 e2 st2) :
+    Post cx J (fun j => P1 j ∨ P2 j) g1 st e2 st2 := by
+  refine ⟨p1.same.trans p2.same, p2.code, ?_, ?_, ?_, ?_, fun h => p2.keepJ (p1.keepJ h)⟩
   · rw [p2.ok]
     simp only [Bool.or_eq_true, decide_eq_true_eq]
     rw [p1.ok]
@@ -215,20 +282,22 @@ theorem Post.seq {cx : Cx} {P1 P2 : Nat → Prop} {g1 : Bool} {st st1 st2 : St} 
       · exact Or.inr ⟨j, Or.inl hj, h2.trans h1⟩
     · exact Or.inr ⟨j, Or.inr hj, h2⟩
 
-theorem Post.shift {cx : Cx} {P : Nat → Prop} {got : Bool} {st st0 : St} {err : Nat} {st' : St}
-    (hs : SameG st st0) (hl : st0.lastEnd = st.lastEnd) (p : Post cx P got st0 err st') :
-    Post cx P got st err st' :=
+theorem Post.shift {cx : Cx} {J : St → Prop} {P : Nat → Prop} {got : Bool} {st st0 : St} {err : Nat} {st' : St}
+    (hs : SameG st st0) (hl : st0.lastEnd = st.lastEnd) (hJ : J st → J st0) (p : Post cx J P got st0 err st') :
+    Post cx J P got st err st' :=
   ⟨hs.trans p.same, p.code, p.ok, fun le h => p.mono le (hl.trans h), p.upper,
    by rcases p.attained with h | h
       · exact Or.inl (h.trans hl)
-      · exact Or.inr h⟩
+      · exact Or.inr h, fun h => p.keepJ (hJ h)⟩
 
-theorem post_gotFull (cx : Cx) (hn : cx.nmatch ≤ 1) (g str : Nat) (st : St) (err : Nat) (st' : St)
-    (h : gotFull cx str g st = (err, st')) : Post cx (fun j => j = str) false st err st' := by
-  obtain ⟨st2, h2, hsame, _, hlast⟩ := gotFull_spec cx hn g str st
+theorem post_gotFull (cx : Cx) (J : St → Prop) (g str : Nat) (st : St) (err : Nat) (st' : St)
+    (hJg : ∀ str st e st', gotFull cx str g st = (e, st') → J st → J st')
+    (h : gotFull cx str g st = (err, st')) : Post cx J (fun j => j = str) false st err st' := by
+  have hJ' : J st → J st' := hJg str st err st' h
+  obtain ⟨st2, h2, hsame, _, hlast⟩ := gotFull_spec cx g str st
   rw [h2] at h
   obtain ⟨rfl, rfl⟩ := Prod.mk.inj h
-  refine ⟨hsame, Or.inl rfl, by simp, ?_, ?_, ?_⟩
+  refine ⟨hsame, Or.inl rfl, by simp, ?_, ?_, ?_, hJ'⟩
   · intro le hle
     rw [hlast, hle]
     exact ⟨max le str, rfl, Nat.le_max_left _ _⟩
@@ -253,30 +322,32 @@ theorem AllSimple.tail {op : COp} {ops : List COp} (h : AllSimple (op :: ops)) :
   fun o ho => h o (List.mem_cons_of_mem _ ho)
 
 /-- the search functions on simple op lists, by simultaneous induction on the fuel -/
-theorem core (cx : Cx) (hn : cx.nmatch ≤ 1) : ∀ f : Nat,
-    (∀ ops str g st err st', AllSimple ops → (st.fr g).gno = 0 →
+theorem core (cx : Cx) (hn : cx.nmatch ≤ 1) (J : St → Prop) (g : Nat)
+    (hJb : ∀ st : St, J st → J { st with budget := st.budget - 1 })
+    (hJg : ∀ str st e st', gotFull cx str g st = (e, st') → J st → J st') : ∀ f : Nat,
+    (∀ ops str st err st', AllSimple ops → (st.fr g).gno = 0 →
         doOps cx f ops str (some g) st = (err, st') → Good err →
-        Post cx (OpsMatch cx.env ops str) false st err st') ∧
-    (∀ rest str g cur mn st err st', AllSimple rest → (st.fr g).gno = 0 → cur ≤ str →
+        Post cx J (OpsMatch cx.env ops str) false st err st') ∧
+    (∀ rest str cur mn st err st', AllSimple rest → (st.fr g).gno = 0 → cur ≤ str →
         scanNext cx f rest str (some g) cur mn st = (err, st') → Good err →
-        Post cx (fun j => ∃ k, mn ≤ k ∧ k ≤ cur ∧ OpsMatch cx.env rest (str - cur + k) j) false st err st') ∧
-    (∀ rest str g cur mn got st err st', AllSimple rest → (st.fr g).gno = 0 → mn ≤ cur → cur ≤ str →
+        Post cx J (fun j => ∃ k, mn ≤ k ∧ k ≤ cur ∧ OpsMatch cx.env rest (str - cur + k) j) false st err st') ∧
+    (∀ rest str cur mn got st err st', AllSimple rest → (st.fr g).gno = 0 → mn ≤ cur → cur ≤ str →
         (got = true → cx.strict = true) →
         scanLoop cx f rest str (some g) cur mn got st = (err, st') → Good err →
-        Post cx (fun j => ∃ k, mn ≤ k ∧ k ≤ cur ∧ OpsMatch cx.env rest (str - cur + k) j) got st err st') := by
+        Post cx J (fun j => ∃ k, mn ≤ k ∧ k ≤ cur ∧ OpsMatch cx.env rest (str - cur + k) j) got st err st') := by
   intro f
   induction f with
   | zero =>
     refine ⟨?_, ?_, ?_⟩
-    · intro ops str g st err st' _ _ h hg
+    · intro ops str st err st' _ _ h hg
       simp only [doOps] at h
       obtain ⟨rfl, _⟩ := Prod.mk.inj h
       exact absurd rfl hg.2
-    · intro rest str g cur mn st err st' _ _ _ h hg
+    · intro rest str cur mn st err st' _ _ _ h hg
       simp only [scanNext] at h
       obtain ⟨rfl, _⟩ := Prod.mk.inj h
       exact absurd rfl hg.2
-    · intro rest str g cur mn got st err st' _ _ _ _ _ h hg
+    · intro rest str cur mn got st err st' _ _ _ _ _ h hg
       simp only [scanLoop] at h
       obtain ⟨rfl, _⟩ := Prod.mk.inj h
       exact absurd rfl hg.2
@@ -284,7 +355,7 @@ theorem core (cx : Cx) (hn : cx.nmatch ≤ 1) : ∀ f : Nat,
     obtain ⟨ihd, ihn, ihs⟩ := ih
     refine ⟨?_, ?_, ?_⟩
     · -- doOps
-      intro ops str g st err st' hsimple hgno h hg
+      intro ops str st err st' hsimple hgno h hg
       simp only [doOps] at h
       by_cases hb : st.budget = 0
       · rw [if_pos hb] at h
@@ -293,36 +364,36 @@ theorem core (cx : Cx) (hn : cx.nmatch ≤ 1) : ∀ f : Nat,
       · rw [if_neg hb] at h
         obtain ⟨st0, hst0⟩ : ∃ st0 : St, st0 = { st with budget := st.budget - 1 } := ⟨_, rfl⟩
         rw [← hst0] at h
-        have hs0 : SameG st st0 := by rw [hst0]; exact ⟨rfl, fun _ => rfl⟩
+        have hs0 : SameG st st0 := by rw [hst0]; exact ⟨rfl, fun _ => rfl, rfl, fun _ => rfl, fun _ => rfl, rfl, fun _ => FrameEq.refl _⟩
         have hg0 : (st0.fr g).gno = 0 := by rw [hst0]; exact hgno
-        refine Post.shift hs0 (by rw [hst0]) ?_
+        refine Post.shift hs0 (by rw [hst0]) (by rw [hst0]; exact hJb st) ?_
         cases ops with
         | nil =>
           simp only [hg0, if_true] at h
-          exact post_gotFull cx hn g str st0 err st' h
+          exact post_gotFull cx J g str st0 err st' hJg h
         | cons op rest =>
           have hrest := hsimple.tail
           cases op with
           | chr c mn mx =>
             simp only [] at h
-            refine Post.congr ?_ (ihn rest _ g _ mn st0 err st' hrest hg0 (Nat.le_add_left _ _) h hg)
+            refine Post.congr ?_ (ihn rest _ _ mn st0 err st' hrest hg0 (Nat.le_add_left _ _) h hg)
             intro j
             simp only [OpsMatch, Nat.add_sub_cancel]
           | any mn mx =>
             simp only [] at h
-            refine Post.congr ?_ (ihn rest _ g _ mn st0 err st' hrest hg0 (Nat.le_add_left _ _) h hg)
+            refine Post.congr ?_ (ihn rest _ _ mn st0 err st' hrest hg0 (Nat.le_add_left _ _) h hg)
             intro j
             simp only [OpsMatch, Nat.add_sub_cancel]
           | cls bm mn mx =>
             simp only [] at h
-            refine Post.congr ?_ (ihn rest _ g _ mn st0 err st' hrest hg0 (Nat.le_add_left _ _) h hg)
+            refine Post.congr ?_ (ihn rest _ _ mn st0 err st' hrest hg0 (Nat.le_add_left _ _) h hg)
             intro j
             simp only [OpsMatch, Nat.add_sub_cancel]
           | bol =>
             simp only [] at h
             by_cases hbol : bolOk cx.env str = true
             · rw [if_pos hbol] at h
-              refine Post.congr ?_ (ihd rest str g st0 err st' hrest hg0 h hg)
+              refine Post.congr ?_ (ihd rest str st0 err st' hrest hg0 h hg)
               intro j; simp [OpsMatch, hbol]
             · rw [if_neg hbol] at h
               obtain ⟨rfl, rfl⟩ := Prod.mk.inj h
@@ -331,7 +402,7 @@ theorem core (cx : Cx) (hn : cx.nmatch ≤ 1) : ∀ f : Nat,
             simp only [] at h
             by_cases heol : eolOk cx.env str = true
             · rw [if_pos heol] at h
-              refine Post.congr ?_ (ihd rest str g st0 err st' hrest hg0 h hg)
+              refine Post.congr ?_ (ihd rest str st0 err st' hrest hg0 h hg)
               intro j; simp [OpsMatch, heol]
             · rw [if_neg heol] at h
               obtain ⟨rfl, rfl⟩ := Prod.mk.inj h
@@ -340,11 +411,11 @@ theorem core (cx : Cx) (hn : cx.nmatch ≤ 1) : ∀ f : Nat,
             have := hsimple _ List.mem_cons_self
             simp [Simple] at this
     · -- scanNext
-      intro rest str g cur mn st err st' hrest hgno hcs h hg
+      intro rest str cur mn st err st' hrest hgno hcs h hg
       simp only [scanNext] at h
       by_cases h1 : cur = mn
       · rw [if_pos h1] at h
-        refine Post.congr ?_ (ihd rest str g st err st' hrest hgno h hg)
+        refine Post.congr ?_ (ihd rest str st err st' hrest hgno h hg)
         intro j
         constructor
         · intro hj
@@ -360,9 +431,9 @@ theorem core (cx : Cx) (hn : cx.nmatch ≤ 1) : ∀ f : Nat,
           obtain ⟨rfl, rfl⟩ := Prod.mk.inj h
           exact Post.none st (fun j ⟨k, hk1, hk2, _⟩ => by omega)
         · rw [if_neg h2] at h
-          exact ihs rest str g cur mn false st err st' hrest hgno (by omega) hcs (fun hh => by cases hh) h hg
+          exact ihs rest str cur mn false st err st' hrest hgno (by omega) hcs (fun hh => by cases hh) h hg
     · -- scanLoop
-      intro rest str g cur mn got st err st' hrest hgno hmc hcs hgot h hg
+      intro rest str cur mn got st err st' hrest hgno hmc hcs hgot h hg
       simp only [scanLoop] at h
       cases h1 : doOps cx f rest str (some g) st with
       | mk e1 st1 =>
@@ -375,11 +446,11 @@ theorem core (cx : Cx) (hn : cx.nmatch ≤ 1) : ∀ f : Nat,
         · rw [if_pos hsucc] at h
           simp only [Bool.and_eq_true, decide_eq_true_eq] at hsucc
           obtain ⟨hstrict, he1⟩ := hsucc
-          have p1 := ihd rest str g st e1 st1 hrest hgno h1 (by subst he1; exact ⟨by decide, by decide⟩)
+          have p1 := ihd rest str st e1 st1 hrest hgno h1 (by subst he1; exact ⟨by decide, by decide⟩)
           by_cases hcm : cur = mn
           · rw [if_pos hcm] at h
             obtain ⟨rfl, rfl⟩ := Prod.mk.inj h
-            refine ⟨p1.same, Or.inl rfl, ?_, p1.mono, ?_, ?_⟩
+            refine ⟨p1.same, Or.inl rfl, ?_, p1.mono, ?_, ?_, p1.keepJ⟩
             · subst he1
               simp only [true_iff]
               right
@@ -394,11 +465,11 @@ theorem core (cx : Cx) (hn : cx.nmatch ≤ 1) : ∀ f : Nat,
               · exact Or.inr ⟨j, ⟨cur, by omega, Nat.le_refl _, (hfirst j).mp hj⟩, ha⟩
           · rw [if_neg hcm] at h
             have hgno1 : (st1.fr g).gno = 0 := by rw [p1.same.gno]; exact hgno
-            have p2 := ihs rest (str - 1) g (cur - 1) mn true st1 err st' hrest hgno1 (by omega) (by omega)
+            have p2 := ihs rest (str - 1) (cur - 1) mn true st1 err st' hrest hgno1 (by omega) (by omega)
               (fun _ => hstrict) h hg
-            have p1' : Post cx (OpsMatch cx.env rest str) got st e1 st1 :=
+            have p1' : Post cx J (OpsMatch cx.env rest str) got st e1 st1 :=
               ⟨p1.same, p1.code, by rw [p1.ok]; subst he1; simp; exact fun _ => (p1.ok.mp rfl).resolve_left (by simp),
-               p1.mono, p1.upper, p1.attained⟩
+               p1.mono, p1.upper, p1.attained, p1.keepJ⟩
             have hgg : (got || decide (e1 = 0)) = true := by simp [he1]
             rw [← hgg] at p2
             refine Post.congr ?_ (Post.seq p1' p2)
@@ -419,7 +490,7 @@ theorem core (cx : Cx) (hn : cx.nmatch ≤ 1) : ∀ f : Nat,
           by_cases hnm : e1 ≠ NOMATCH
           · rw [if_pos hnm] at h
             obtain ⟨rfl, rfl⟩ := Prod.mk.inj h
-            have p1 := ihd rest str g st e1 st1 hrest hgno h1 hg
+            have p1 := ihd rest str st e1 st1 hrest hgno h1 hg
             have he0 : e1 = 0 := p1.code.resolve_right hnm
             have hns : cx.strict = false := by
               cases hcs' : cx.strict with
@@ -431,7 +502,7 @@ theorem core (cx : Cx) (hn : cx.nmatch ≤ 1) : ∀ f : Nat,
               | true => rw [hgot rfl] at hns; cases hns
             subst hgf
             obtain ⟨j0, hj0⟩ := (p1.ok.mp he0).resolve_left (by simp)
-            refine ⟨p1.same, Or.inl he0, ?_, p1.mono, (fun hs => by rw [hns] at hs; cases hs), ?_⟩
+            refine ⟨p1.same, Or.inl he0, ?_, p1.mono, (fun hs => by rw [hns] at hs; cases hs), ?_, p1.keepJ⟩
             · simp only [he0, true_iff]
               exact Or.inr ⟨j0, cur, hmc, Nat.le_refl _, (hfirst j0).mp hj0⟩
             · rcases p1.attained with ha | ⟨j, hj, ha⟩
@@ -439,15 +510,15 @@ theorem core (cx : Cx) (hn : cx.nmatch ≤ 1) : ∀ f : Nat,
               · exact Or.inr ⟨j, ⟨cur, hmc, Nat.le_refl _, (hfirst j).mp hj⟩, ha⟩
           · rw [if_neg hnm] at h
             have he1 : e1 = NOMATCH := Decidable.not_not.mp hnm
-            have p1 := ihd rest str g st e1 st1 hrest hgno h1 (by rw [he1]; exact ⟨by decide, by decide⟩)
+            have p1 := ihd rest str st e1 st1 hrest hgno h1 (by rw [he1]; exact ⟨by decide, by decide⟩)
             have hno : ∀ j, ¬ OpsMatch cx.env rest str j := by
               intro j hj
               have := p1.ok.mpr (Or.inr ⟨j, hj⟩)
               rw [he1] at this
               exact absurd this (by decide)
-            have p1' : Post cx (OpsMatch cx.env rest str) got st (if got then 0 else NOMATCH) st1 :=
+            have p1' : Post cx J (OpsMatch cx.env rest str) got st (if got then 0 else NOMATCH) st1 :=
               ⟨p1.same, by cases got <;> simp, by cases got <;> simp [NOMATCH] <;> exact fun j => hno j,
-               p1.mono, p1.upper, p1.attained⟩
+               p1.mono, p1.upper, p1.attained, p1.keepJ⟩
             by_cases hcm : cur = mn
             · rw [if_pos hcm] at h
               obtain ⟨rfl, rfl⟩ := Prod.mk.inj h
@@ -461,7 +532,7 @@ theorem core (cx : Cx) (hn : cx.nmatch ≤ 1) : ∀ f : Nat,
                 exact absurd ((hfirst j).mpr hj) (hno j)
             · rw [if_neg hcm] at h
               have hgno1 : (st1.fr g).gno = 0 := by rw [p1.same.gno]; exact hgno
-              have p2 := ihs rest (str - 1) g (cur - 1) mn got st1 err st' hrest hgno1 (by omega) (by omega) hgot h hg
+              have p2 := ihs rest (str - 1) (cur - 1) mn got st1 err st' hrest hgno1 (by omega) (by omega) hgot h hg
               have hgg : (got || decide ((if got then 0 else NOMATCH) = 0)) = got := by cases got <;> simp [NOMATCH]
               rw [← hgg] at p2
               refine Post.congr ?_ (Post.seq p1' p2)
@@ -485,28 +556,32 @@ def AltsMatch (e : Env) (alts : List (List COp)) (str j : Nat) : Prop :=
   ∃ a, a ∈ alts ∧ OpsMatch e a str j
 
 /-- the `while (alist)` loop for the frame `id` of group #0 -/
-theorem altLoop_spec (cx : Cx) (hn : cx.nmatch ≤ 1) : ∀ (f : Nat) (alts : List (List COp)) (str id err0 : Nat)
+theorem altLoop_spec (cx : Cx) (hn : cx.nmatch ≤ 1) (J : St → Prop) (id : Nat)
+    (hJb : ∀ st : St, J st → J { st with budget := st.budget - 1 })
+    (hJg : ∀ str st e st', gotFull cx str id st = (e, st') → J st → J st')
+    (hJe : ∀ st : St, J st → J (st.setFr id { st.fr id with end_ := none })) :
+    ∀ (f : Nat) (alts : List (List COp)) (str err0 : Nat)
     (got : Bool) (st : St) (err : Nat) (got' : Bool) (st' : St),
     (∀ a, a ∈ alts → AllSimple a) → (st.fr id).gno = 0 → (got = true → cx.strict = true) →
     (err0 = NOMATCH ∨ (err0 = 0 ∧ got = true)) →
     altLoop cx f alts str id err0 got st = (err, got', st') → Good err →
-    Post cx (AltsMatch cx.env alts str) got st (if got' then 0 else err) st' := by
+    Post cx J (AltsMatch cx.env alts str) got st (if got' then 0 else err) st' := by
   intro f
   induction f with
   | zero =>
-    intro alts str id err0 got st err got' st' _ _ _ _ h hg
+    intro alts str err0 got st err got' st' _ _ _ _ h hg
     simp only [altLoop] at h
     obtain ⟨rfl, _⟩ := Prod.mk.inj h
     exact absurd rfl hg.2
   | succ f ih =>
-    intro alts str id err0 got st err got' st' hsimple hgno hgot herr0 h hg
+    intro alts str err0 got st err got' st' hsimple hgno hgot herr0 h hg
     cases alts with
     | nil =>
       simp only [altLoop] at h
       obtain ⟨rfl, h2⟩ := Prod.mk.inj h
       obtain ⟨rfl, rfl⟩ := Prod.mk.inj h2
       have hno : ∀ j, ¬ AltsMatch cx.env [] str j := fun j ⟨a, ha, _⟩ => by cases ha
-      refine ⟨SameG.refl st, ?_, ?_, fun le hle => ⟨le, hle, Nat.le_refl _⟩, fun _ j hj => absurd hj (hno j), Or.inl rfl⟩
+      refine ⟨SameG.refl st, ?_, ?_, fun le hle => ⟨le, hle, Nat.le_refl _⟩, fun _ j hj => absurd hj (hno j), Or.inl rfl, fun h => h⟩
       · cases got <;> rcases herr0 with h0 | ⟨h0, h1⟩ <;> simp_all [NOMATCH]
       · cases got <;> rcases herr0 with h0 | ⟨h0, h1⟩ <;> simp_all [NOMATCH] <;> exact fun j => hno j
     | cons a more =>
@@ -529,20 +604,20 @@ theorem altLoop_spec (cx : Cx) (hn : cx.nmatch ≤ 1) : ∀ (f : Nat) (alts : Li
         by_cases hsucc : e1 = 0 ∧ cx.strict = true
         · rw [if_pos hsucc] at h
           obtain ⟨he1, hstrict⟩ := hsucc
-          have p1 := (core cx hn f).1 a str id st e1 st1 (hsimple a List.mem_cons_self) hgno h1
+          have p1 := (core cx hn J id hJb hJg f).1 a str st e1 st1 (hsimple a List.mem_cons_self) hgno h1
             (by subst he1; exact ⟨by decide, by decide⟩)
           obtain ⟨st1', hst1'⟩ : ∃ s : St, s = st1.setFr id { st1.fr id with end_ := none } := ⟨_, rfl⟩
           rw [← hst1'] at h
           have k1 : Keeps st1 st1' := by rw [hst1']; exact keeps_setFr st1 id _ rfl
           have hgno1 : (st1'.fr id).gno = 0 := by rw [k1.gno, p1.same.gno]; exact hgno
-          have p2 := ih more str id e1 true st1' err got' st' hmore hgno1 (fun _ => hstrict)
+          have p2 := ih more str e1 true st1' err got' st' hmore hgno1 (fun _ => hstrict)
             (Or.inr ⟨he1, rfl⟩) h hg
-          have p2' := Post.shift k1.sameG k1.last p2
-          have p1' : Post cx (OpsMatch cx.env a str) got st e1 st1 :=
+          have p2' := Post.shift k1.sameG k1.last (by rw [hst1']; exact hJe st1) p2
+          have p1' : Post cx J (OpsMatch cx.env a str) got st e1 st1 :=
             ⟨p1.same, p1.code, by rw [p1.ok]; subst he1; simp; exact fun _ => (p1.ok.mp rfl).resolve_left (by simp),
-             p1.mono, p1.upper, p1.attained⟩
+             p1.mono, p1.upper, p1.attained, p1.keepJ⟩
           have hgg : (got || decide (e1 = 0)) = true := by simp [he1]
-          have p2'' : Post cx (AltsMatch cx.env more str) (got || decide (e1 = 0)) st1 (if got' then 0 else err) st' := by
+          have p2'' : Post cx J (AltsMatch cx.env more str) (got || decide (e1 = 0)) st1 (if got' then 0 else err) st' := by
             rw [hgg]; exact p2'
           exact Post.congr hsplit (Post.seq p1' p2'')
         · rw [if_neg hsucc] at h
@@ -550,7 +625,7 @@ theorem altLoop_spec (cx : Cx) (hn : cx.nmatch ≤ 1) : ∀ (f : Nat) (alts : Li
           · rw [if_pos hnm] at h
             obtain ⟨rfl, h2⟩ := Prod.mk.inj h
             obtain ⟨rfl, rfl⟩ := Prod.mk.inj h2
-            have p1 := (core cx hn f).1 a str id st e1 st1 (hsimple a List.mem_cons_self) hgno h1 hg
+            have p1 := (core cx hn J id hJb hJg f).1 a str st e1 st1 (hsimple a List.mem_cons_self) hgno h1 hg
             have he0 : e1 = 0 := p1.code.resolve_right hnm
             have hns : cx.strict = false := by
               cases hcs' : cx.strict with
@@ -563,7 +638,7 @@ theorem altLoop_spec (cx : Cx) (hn : cx.nmatch ≤ 1) : ∀ (f : Nat) (alts : Li
             subst hgf
             obtain ⟨j0, hj0⟩ := (p1.ok.mp he0).resolve_left (by simp)
             simp only [Bool.false_eq_true, if_false]
-            refine ⟨p1.same, Or.inl he0, ?_, p1.mono, (fun hs => by rw [hns] at hs; cases hs), ?_⟩
+            refine ⟨p1.same, Or.inl he0, ?_, p1.mono, (fun hs => by rw [hns] at hs; cases hs), ?_, p1.keepJ⟩
             · simp only [he0, true_iff]
               exact Or.inr ⟨j0, (hsplit j0).mp (Or.inl hj0)⟩
             · rcases p1.attained with ha | ⟨j, hj, ha⟩
@@ -571,35 +646,195 @@ theorem altLoop_spec (cx : Cx) (hn : cx.nmatch ≤ 1) : ∀ (f : Nat) (alts : Li
               · exact Or.inr ⟨j, (hsplit j).mp (Or.inl hj), ha⟩
           · rw [if_neg hnm] at h
             have he1 : e1 = NOMATCH := Decidable.not_not.mp hnm
-            have p1 := (core cx hn f).1 a str id st e1 st1 (hsimple a List.mem_cons_self) hgno h1
+            have p1 := (core cx hn J id hJb hJg f).1 a str st e1 st1 (hsimple a List.mem_cons_self) hgno h1
               (by rw [he1]; exact ⟨by decide, by decide⟩)
             have hno : ∀ j, ¬ OpsMatch cx.env a str j := by
               intro j hj
               have := p1.ok.mpr (Or.inr ⟨j, hj⟩)
               rw [he1] at this
               exact absurd this (by decide)
-            have p1' : Post cx (OpsMatch cx.env a str) got st (if got then 0 else NOMATCH) st1 :=
+            have p1' : Post cx J (OpsMatch cx.env a str) got st (if got then 0 else NOMATCH) st1 :=
               ⟨p1.same, by cases got <;> simp, by cases got <;> simp [NOMATCH] <;> exact fun j => hno j,
-               p1.mono, p1.upper, p1.attained⟩
+               p1.mono, p1.upper, p1.attained, p1.keepJ⟩
             have hgno1 : (st1.fr id).gno = 0 := by rw [p1.same.gno]; exact hgno
             have herr1 : e1 = NOMATCH ∨ (e1 = 0 ∧ got = true) := Or.inl he1
-            have p2 := ih more str id e1 got st1 err got' st' hmore hgno1 hgot herr1 h hg
+            have p2 := ih more str e1 got st1 err got' st' hmore hgno1 hgot herr1 h hg
             have hgg : (got || decide ((if got then 0 else NOMATCH) = 0)) = got := by cases got <;> simp [NOMATCH]
-            have p2'' : Post cx (AltsMatch cx.env more str) (got || decide ((if got then 0 else NOMATCH) = 0)) st1
+            have p2'' : Post cx J (AltsMatch cx.env more str) (got || decide ((if got then 0 else NOMATCH) = 0)) st1
                 (if got' then 0 else err) st' := by rw [hgg]; exact p2
             exact Post.congr hsplit (Post.seq p1' p2'')
 
+/-! ### `pmatch[0]`: the invariant carried through the search of group #0 -/
+
+/-- `id` is the frame of group #0 for the start `s0`, on top of stack #0, and `pmatch[0]` shows
+`(s0, last_endpos)` whenever a full match was seen -/
+structure RootInv (id s0 N M : Nat) (st : St) : Prop where
+  gsz : id < st.frames.size
+  ssz : st.stacks.size = N
+  psz : st.pm.size = M
+  stk : st.stacks[0]! = some id
+  start : (st.fr id).start = s0
+  par : (st.fr id).parent = none
+  gno : (st.fr id).gno = 0
+  pm0 : ∀ le, st.lastEnd = some le → st.pm[0]! = ((s0 : Int), (le : Int))
+
+theorem fillHist_pm (gno : Nat) : ∀ (f : Nat) (gm : Option Nat) (rl : Int) (st : St),
+    (fillHist gno f gm rl st).pm = st.pm := by
+  intro f
+  induction f with
+  | zero => intro gm rl st; simp only [fillHist]
+  | succ f ih =>
+    intro gm rl st
+    cases gm with
+    | none => simp only [fillHist]
+    | some g =>
+      simp only [fillHist]
+      cases hp : (st.fr g).prev with
+      | none => simp only []; rw [ih]
+      | some p => simp only []; rw [ih]; rfl
+
+theorem skip_root (st : St) (g n e : Nat) (he : (st.fr g).end_ = some e) :
+    skipUnmatched st (n + 1) (some g) = some g := by
+  simp [skipUnmatched, he]
+
+theorem publish_pm_root (st : St) (g s0 e : Nat) (hstk : st.stacks[0]! = some g)
+    (he : (st.fr g).end_ = some e) (hstart : (st.fr g).start = s0) (hpar : (st.fr g).parent = none) :
+    (publish st 0).pm = st.pm.set! 0 ((s0 : Int), (e : Int)) := by
+  unfold publish
+  rw [hstk, skip_root st g _ e he]
+  simp only [hpar]
+  simp only [St.fr] at he hstart ⊢
+  simp [he, hstart]
+
+theorem publish_pm0_other (st : St) (gno : Nat) (hg : gno ≠ 0) : (publish st gno).pm[0]! = st.pm[0]! := by
+  unfold publish
+  simp only []
+  split <;> simp [Array.getElem!_eq_getD, Array.getD_eq_getD_getElem?, Array.getElem?_setIfInBounds, hg]
+
+theorem publishAll_pm0_from (cx : Cx) : ∀ (f gno : Nat) (st : St), gno ≠ 0 →
+    (publishAll cx f gno st).pm[0]! = st.pm[0]! := by
+  intro f
+  induction f with
+  | zero => intro gno st _; simp only [publishAll]
+  | succ f ih =>
+    intro gno st hg
+    simp only [publishAll]
+    by_cases hlt : gno < cx.nmatch
+    · rw [if_pos hlt]
+      cases hcs : cx.strict with
+      | true =>
+        simp only [if_true]
+        rw [ih _ _ (by omega), fillHist_pm, publish_pm0_other st gno hg]
+      | false =>
+        simp only [Bool.false_eq_true, if_false]
+        rw [ih _ _ (by omega), publish_pm0_other st gno hg]
+    · rw [if_neg hlt]
+
+theorem publishAll_pm_root (cx : Cx) (hn : 1 ≤ cx.nmatch) (st : St) (g s0 e : Nat) (hstk : st.stacks[0]! = some g)
+    (he : (st.fr g).end_ = some e) (hstart : (st.fr g).start = s0) (hpar : (st.fr g).parent = none)
+    (hp : 0 < st.pm.size) : (publishAll cx cx.nmatch 0 st).pm[0]! = ((s0 : Int), (e : Int)) := by
+  obtain ⟨f, hf⟩ : ∃ f, cx.nmatch = f + 1 := ⟨cx.nmatch - 1, by omega⟩
+  have h1 := publish_pm_root st g s0 e hstk he hstart hpar
+  have hlt : 0 < cx.nmatch := by omega
+  rw [hf]
+  simp only [publishAll]
+  rw [if_pos hlt]
+  cases hcs : cx.strict with
+  | true =>
+    simp only [if_true]
+    rw [publishAll_pm0_from cx f 1 _ (by omega), fillHist_pm, h1]
+    simp [hp]
+  | false =>
+    simp only [Bool.false_eq_true, if_false]
+    rw [publishAll_pm0_from cx f 1 _ (by omega), h1]
+    simp [hp]
+
+theorem rootInv_budget {id s0 N M : Nat} {st : St} (h : RootInv id s0 N M st) (b : Nat) :
+    RootInv id s0 N M { st with budget := b } :=
+  ⟨h.gsz, h.ssz, h.psz, h.stk, h.start, h.par, h.gno, h.pm0⟩
+
+theorem rootInv_setEnd {id s0 N M : Nat} {st : St} (h : RootInv id s0 N M st) (en : Option Nat) :
+    RootInv id s0 N M (st.setFr id { st.fr id with end_ := en }) := by
+  have k := keeps_setFr st id { st.fr id with end_ := en } rfl
+  exact ⟨by rw [k.size]; exact h.gsz, by rw [k.stacks]; exact h.ssz, h.psz, by rw [k.stacks]; exact h.stk,
+    by rw [k.start]; exact h.start, by rw [k.parent]; exact h.par, by rw [k.gno]; exact h.gno, h.pm0⟩
+
+theorem rootInv_gotFull (cx : Cx) (hn : 1 ≤ cx.nmatch) {id s0 N M : Nat} (hN : 0 < N) (hM : 0 < M) (str : Nat)
+    (st : St) (e : Nat) (st' : St) (hgf : gotFull cx str id st = (e, st')) (h : RootInv id s0 N M st) :
+    RootInv id s0 N M st' := by
+  obtain ⟨st1, hst1⟩ : ∃ s : St, s = st.setFr id { st.fr id with end_ := some str } := ⟨_, rfl⟩
+  have h1 : RootInv id s0 N M st1 := by rw [hst1]; exact rootInv_setEnd h (some str)
+  have hend1 : (st1.fr id).end_ = some str := by
+    rw [hst1, fr_setFr]; simp [h.gsz]
+  have hl1 : st1.lastEnd = st.lastEnd := by rw [hst1]; rfl
+  -- the publishing step, from any state that differs from `st1` at most in `last_endpos`
+  have hpub : ∀ st2 : St, (∀ k, st2.fr k = st1.fr k) → st2.frames.size = st1.frames.size →
+      st2.stacks = st1.stacks → st2.pm = st1.pm → st2.lastEnd = some str →
+      RootInv id s0 N M (publishAll cx cx.nmatch 0 st2) := by
+    intro st2 f2 hsz2 hstk2 hpm2 hl2
+    have kp := keeps_publishAll cx cx.nmatch 0 st2
+    have hpm := publishAll_pm_root cx hn st2 id s0 str (by rw [hstk2]; exact h1.stk) (by rw [f2]; exact hend1)
+      (by rw [f2]; exact h1.start) (by rw [f2]; exact h1.par) (by rw [hpm2, h1.psz]; exact hM)
+    refine ⟨by rw [kp.size, hsz2]; exact h1.gsz, by rw [kp.stacks, hstk2]; exact h1.ssz,
+      by rw [kp.psize, hpm2]; exact h1.psz, by rw [kp.stacks, hstk2]; exact h1.stk,
+      by rw [kp.start, f2]; exact h1.start, by rw [kp.parent, f2]; exact h1.par, by rw [kp.gno, f2]; exact h1.gno, ?_⟩
+    intro le hle
+    rw [kp.last, hl2] at hle
+    cases hle
+    exact hpm
+  unfold gotFull at hgf
+  simp only [] at hgf
+  rw [← hst1] at hgf
+  rw [hl1] at hgf
+  cases hl : st.lastEnd with
+  | none =>
+    rw [hl] at hgf
+    simp only [] at hgf
+    obtain ⟨_, rfl⟩ := Prod.mk.inj hgf
+    exact hpub _ (fun _ => rfl) rfl rfl rfl rfl
+  | some le =>
+    rw [hl] at hgf
+    simp only [] at hgf
+    by_cases c1 : str < le
+    · rw [if_pos c1] at hgf
+      obtain ⟨_, rfl⟩ := Prod.mk.inj hgf
+      exact h1
+    · rw [if_neg c1] at hgf
+      by_cases c2 : str > le
+      · rw [if_pos c2] at hgf
+        obtain ⟨_, rfl⟩ := Prod.mk.inj hgf
+        exact hpub _ (fun _ => rfl) rfl rfl rfl rfl
+      · rw [if_neg c2] at hgf
+        have hle : str = le := by omega
+        by_cases hb : (cx.strict && decide (cx.nmatch > 1)) = true
+        · rw [if_pos hb] at hgf
+          by_cases ht : tieLoop cx st1 cx.nmatch 0 = true
+          · rw [if_pos ht] at hgf
+            simp only [] at hgf
+            obtain ⟨_, rfl⟩ := Prod.mk.inj hgf
+            exact hpub st1 (fun _ => rfl) rfl rfl rfl (by rw [hl1, hl, hle])
+          · rw [if_neg ht] at hgf
+            obtain ⟨_, rfl⟩ := Prod.mk.inj hgf
+            exact h1
+        · rw [if_neg hb] at hgf
+          obtain ⟨_, rfl⟩ := Prod.mk.inj hgf
+          exact h1
+
 /-- result of one `do_match(root, str, NULL)` -/
-structure RootPost (cx : Cx) (P : Nat → Prop) (st : St) (err : Nat) (st' : St) : Prop where
+structure RootPost (cx : Cx) (P : Nat → Prop) (str : Nat) (st : St) (err : Nat) (st' : St) : Prop where
   code : err = 0 ∨ err = NOMATCH
   ok : err = 0 ↔ ∃ j, P j
   upper : cx.strict = true → ∀ j, P j → ∃ le', st'.lastEnd = some le' ∧ j ≤ le'
   attained : st'.lastEnd = st.lastEnd ∨ ∃ j, P j ∧ st'.lastEnd = some j
+  ssz : st'.stacks.size = st.stacks.size
+  psz : st'.pm.size = st.pm.size
+  pm0 : cx.nmatch = 1 → 0 < st.stacks.size → 0 < st.pm.size → st.lastEnd = none →
+    ∀ le, st'.lastEnd = some le → st'.pm[0]! = ((str : Int), (le : Int))
 
 theorem root_spec (cx : Cx) (hn : cx.nmatch ≤ 1) (f : Nat) (alts : List (List COp)) (str : Nat) (st : St)
     (err : Nat) (st' : St) (hsimple : ∀ a, a ∈ alts → AllSimple a)
     (h : matchGroup cx f 0 alts 1 1 [] str none st = (err, st')) (hg : Good err) :
-    RootPost cx (AltsMatch cx.env alts str) st err st' := by
+    RootPost cx (AltsMatch cx.env alts str) str st err st' := by
   cases f with
   | zero =>
     simp only [matchGroup] at h
@@ -613,7 +848,19 @@ theorem root_spec (cx : Cx) (hn : cx.nmatch ≤ 1) (f : Nat) (alts : List (List 
         stacks := st.stacks.set! 0 (some st.frames.size) } := ⟨_, rfl⟩
     rw [← hst1] at h
     have hgno : (st1.fr st.frames.size).gno = 0 := by rw [hst1]; simp [St.fr]
+    have hstart1 : (st1.fr st.frames.size).start = str := by rw [hst1]; simp [St.fr]
+    have hpar1 : (st1.fr st.frames.size).parent = none := by rw [hst1]; simp [St.fr]
     have hlast1 : st1.lastEnd = st.lastEnd := by rw [hst1]
+    -- the invariant for pmatch[0], needed only when pmatch[0] is wanted
+    obtain ⟨J, hJ⟩ : ∃ J : St → Prop, J = fun s => (cx.nmatch = 1 ∧ 0 < st.stacks.size ∧ 0 < st.pm.size) →
+        RootInv st.frames.size str st.stacks.size st.pm.size s := ⟨_, rfl⟩
+    have hJb : ∀ s : St, J s → J { s with budget := s.budget - 1 } := by
+      intro s hs; rw [hJ] at hs ⊢; intro hc; exact rootInv_budget (hs hc) _
+    have hJg : ∀ str' s e s', gotFull cx str' st.frames.size s = (e, s') → J s → J s' := by
+      intro str' s e s' hgf hs; rw [hJ] at hs ⊢; intro hc
+      exact rootInv_gotFull cx (by omega) hc.2.1 hc.2.2 str' s e s' hgf (hs hc)
+    have hJe : ∀ s : St, J s → J (s.setFr st.frames.size { s.fr st.frames.size with end_ := none }) := by
+      intro s hs; rw [hJ] at hs ⊢; intro hc; exact rootInv_setEnd (hs hc) none
     cases h1 : altLoop cx f alts str st.frames.size NOMATCH false st1 with
     | mk e1 r1 =>
       obtain ⟨got1, st2⟩ := r1
@@ -630,19 +877,37 @@ theorem root_spec (cx : Cx) (hn : cx.nmatch ≤ 1) (f : Nat) (alts : List (List 
           rw [h99] at hg
           simp [OUT_OF_FUEL] at hg
           exact hg.2 (by simp [OUT_OF_FUEL])
-      have p := altLoop_spec cx hn f alts str st.frames.size NOMATCH false st1 e1 got1 st2 hsimple hgno
+      have p := altLoop_spec cx hn J st.frames.size hJb hJg hJe f alts str NOMATCH false st1 e1 got1 st2 hsimple hgno
         (fun hh => by cases hh) (Or.inl rfl) h1 hge
       have hfin : (if got1 = true ∧ e1 ≠ OUT_OF_BUDGET ∧ e1 ≠ OUT_OF_FUEL then 0 else e1) = (if got1 then 0 else e1) := by
         cases got1 <;> simp [hge.1, hge.2]
       rw [hfin]
-      refine ⟨p.code, ?_, p.upper, ?_⟩
+      refine ⟨p.code, ?_, p.upper, ?_, ?_, ?_, ?_⟩
       · rw [p.ok]; simp
       · rcases p.attained with ha | ha
         · exact Or.inl (ha.trans hlast1)
         · exact Or.inr ha
+      · show (st2.stacks.set! 0 _).size = _
+        have := p.same.stacks
+        simp only [Array.set!_eq_setIfInBounds, Array.size_setIfInBounds]
+        rw [this, hst1]; simp
+      · show st2.pm.size = _
+        rw [p.same.psize, hst1]
+      · intro hc1 hc2 hc3 hl le hle
+        have hJ1 : J st1 := by
+          rw [hJ]; intro _
+          refine ⟨by rw [hst1]; simp, by rw [hst1]; simp, by rw [hst1], by rw [hst1]; simp [hc2],
+            hstart1, hpar1, hgno, ?_⟩
+          intro le' hle'
+          rw [hlast1, hl] at hle'; cases hle'
+        have hJ2 := p.keepJ hJ1
+        rw [hJ] at hJ2
+        exact (hJ2 ⟨hc1, hc2, hc3⟩).pm0 le hle
 
 /-- leftmost-longest, stated for the op lists of group #0 -/
 structure OpsLL (e : Env) (alts : List (List COp)) (strict : Bool) (rc pos : Nat) (last : Option Nat) : Prop where
+  /-- the start is inside the subject (or at its end) -/
+  inb : pos ≤ e.s.size
   /-- some alternative matches from `pos` -/
   found : ∃ j, AltsMatch e alts pos j
   /-- nothing matches from an earlier start -/
@@ -652,21 +917,24 @@ structure OpsLL (e : Env) (alts : List (List COp)) (strict : Bool) (rc pos : Nat
 
 theorem startLoop_spec (cx : Cx) (hn : cx.nmatch ≤ 1) (alts : List (List COp))
     (hsimple : ∀ a, a ∈ alts → AllSimple a) (fuel : Nat) : ∀ (k str : Nat) (st : St) (rc pos : Nat) (st' : St),
-    st.lastEnd = none → startLoop cx alts fuel k str st = (rc, pos, st') → Good rc →
-    (rc = 0 ∧ str ≤ pos ∧ (∃ j, AltsMatch cx.env alts pos j) ∧
+    st.lastEnd = none → str ≤ cx.env.s.size → startLoop cx alts fuel k str st = (rc, pos, st') → Good rc →
+    (rc = 0 ∧ str ≤ pos ∧ pos ≤ cx.env.s.size ∧ (∃ j, AltsMatch cx.env alts pos j) ∧
         (∀ i, str ≤ i → i < pos → ∀ j, ¬ AltsMatch cx.env alts i j) ∧
         (cx.strict = true → ∃ le, st'.lastEnd = some le ∧ AltsMatch cx.env alts pos le ∧
-            ∀ j, AltsMatch cx.env alts pos j → j ≤ le)) ∨
+            ∀ j, AltsMatch cx.env alts pos j → j ≤ le) ∧
+        st'.pm.size = st.pm.size ∧
+        (cx.nmatch = 1 → 0 < st.stacks.size → 0 < st.pm.size →
+            ∀ le, st'.lastEnd = some le → st'.pm[0]! = ((pos : Int), (le : Int)))) ∨
     (rc = NOMATCH ∧ ∀ i, str ≤ i → i < str + k → i ≤ cx.env.s.size → ∀ j, ¬ AltsMatch cx.env alts i j) := by
   intro k
   induction k with
   | zero =>
-    intro str st rc pos st' _ h _
+    intro str st rc pos st' _ _ h _
     simp only [startLoop] at h
     obtain ⟨rfl, _⟩ := Prod.mk.inj h
     exact Or.inr ⟨rfl, fun i h1 h2 => by omega⟩
   | succ k ih =>
-    intro str st rc pos st' hl h hg
+    intro str st rc pos st' hl hstr h hg
     simp only [startLoop] at h
     cases h1 : matchGroup cx fuel 0 alts 1 1 [] str none st with
     | mk e1 st1 =>
@@ -684,12 +952,15 @@ theorem startLoop_spec (cx : Cx) (hn : cx.nmatch ≤ 1) (alts : List (List COp))
           rcases p.attained with ha | ⟨j, hj, _⟩
           · exact ha.trans hl
           · exact absurd hj (hno j)
-        rcases ih (str + 1) st1 rc pos st' hl1 h hg with ⟨r0, hp, hf, hleft, hlong⟩ | ⟨r1, hnone⟩
-        · refine Or.inl ⟨r0, by omega, hf, ?_, hlong⟩
-          intro i hi1 hi2 j
-          by_cases his : i = str
-          · subst his; exact hno j
-          · exact hleft i (by omega) hi2 j
+        rcases ih (str + 1) st1 rc pos st' hl1 (by omega) h hg with
+          ⟨r0, hp, hpb, hf, hleft, hlong, hps, hpm⟩ | ⟨r1, hnone⟩
+        · refine Or.inl ⟨r0, by omega, hpb, hf, ?_, hlong, hps.trans p.psz, ?_⟩
+          · intro i hi1 hi2 j
+            by_cases his : i = str
+            · subst his; exact hno j
+            · exact hleft i (by omega) hi2 j
+          · intro c1 c2 c3
+            exact hpm c1 (by rw [p.ssz]; exact c2) (by rw [p.psz]; exact c3)
         · refine Or.inr ⟨r1, ?_⟩
           intro i hi1 hi2 hi3 j
           by_cases his : i = str
@@ -700,7 +971,8 @@ theorem startLoop_spec (cx : Cx) (hn : cx.nmatch ≤ 1) (alts : List (List COp))
         obtain ⟨rfl, rfl⟩ := Prod.mk.inj h2
         have p := root_spec cx hn fuel alts str st e1 st1 hsimple h1 hg
         rcases p.code with r0 | r1
-        · refine Or.inl ⟨r0, Nat.le_refl _, p.ok.mp r0, fun i h1 h2 => by omega, ?_⟩
+        · refine Or.inl ⟨r0, Nat.le_refl _, hstr, p.ok.mp r0, fun i h1 h2 => by omega, ?_, p.psz,
+            fun c1 c2 c3 => p.pm0 c1 c2 c3 hl⟩
           intro hs
           obtain ⟨j0, hj0⟩ := p.ok.mp r0
           obtain ⟨le, hle, _⟩ := p.upper hs j0 hj0
@@ -727,7 +999,9 @@ the leftmost such start, and (when `pmatch` is wanted) leaves the longest end in
 theorem cExec_ops_spec (alts : List (List COp)) (hsimple : ∀ a, a ∈ alts → AllSimple a) (nosub : Bool) (e : Env)
     (nmatch budget fuel : Nat) (hg : Good (cExec alts 0 nosub e nmatch budget fuel).rc) :
     let res := cExec alts 0 nosub e nmatch budget fuel
-    (res.rc = 0 ∧ OpsLL e alts (!nosub && decide (nmatch > 0)) res.rc res.start res.last) ∨
+    (res.rc = 0 ∧ OpsLL e alts (!nosub && decide (nmatch > 0)) res.rc res.start res.last ∧
+      ((!nosub && decide (nmatch > 0)) = true → ∀ le, res.last = some le →
+        res.pm.head? = some ((res.start : Int), (le : Int)))) ∨
     (res.rc = NOMATCH ∧ ∀ i, i ≤ e.s.size → ∀ j, ¬ AltsMatch e alts i j) := by
   intro res
   obtain ⟨cx, hcx⟩ : ∃ cx : Cx, cx = mkCx e 0 nosub nmatch := ⟨_, rfl⟩
@@ -753,11 +1027,12 @@ theorem cExec_ops_spec (alts : List (List COp)) (hsimple : ∀ a, a ∈ alts →
     have hg' : Good rc := by
       have : res.rc = rc := by rw [hres]
       rw [← this]; exact hg
-    rcases startLoop_spec cx hcn alts hsimple fuel (e.s.size + 1) 0 st0 rc pos st' hl0 hrun hg' with
-      ⟨r0, _, hf, hleft, hlong⟩ | ⟨r1, hnone⟩
+    rcases startLoop_spec cx hcn alts hsimple fuel (e.s.size + 1) 0 st0 rc pos st' hl0 (Nat.zero_le _) hrun hg' with
+      ⟨r0, _, hpb, hf, hleft, hlong, hps, hpm⟩ | ⟨r1, hnone⟩
     · left
       rw [hres]
-      refine ⟨r0, ?_, ?_, ?_⟩
+      refine ⟨r0, ⟨?_, ?_, ?_, ?_⟩, ?_⟩
+      · rw [← hce]; exact hpb
       · rw [← hce]; exact hf
       · intro i hi j; rw [← hce]; exact hleft i (Nat.zero_le _) hi j
       · intro hs
@@ -765,6 +1040,27 @@ theorem cExec_ops_spec (alts : List (List COp)) (hsimple : ∀ a, a ∈ alts →
         obtain ⟨le, h1, h2, h3⟩ := hlong hs
         rw [hce] at h2 h3
         exact ⟨le, h1, h2, h3⟩
+      · intro hs le hle
+        simp only [Bool.and_eq_true, Bool.not_eq_true', decide_eq_true_eq] at hs
+        obtain ⟨hns, hnm⟩ := hs
+        have hc1 : cx.nmatch = 1 := by
+          rw [hcx]; simp only [mkCx, hns]
+          simp
+          omega
+        have hst : 0 < st0.stacks.size := by rw [hst0]; simp [initSt]
+        have hpz : 0 < st0.pm.size := by rw [hst0]; simp [initSt, hns]; exact hnm
+        have h0 := hpm hc1 hst hpz le hle
+        have hsz' : 0 < st'.pm.size := by rw [hps]; exact hpz
+        show st'.pm.toList.head? = _
+        rw [← h0]
+        cases hpl : st'.pm.toList with
+        | nil =>
+          have : st'.pm.size = 0 := by simpa using congrArg List.length hpl
+          omega
+        | cons x xs =>
+          simp only [List.head?_cons, Option.some.injEq]
+          have : st'.pm[0]! = st'.pm.toList[0]! := by simp [Array.getElem!_eq_getD, Array.getD_eq_getD_getElem?]
+          rw [this, hpl]; rfl
     · right
       rw [hres]
       refine ⟨r1, ?_⟩
